@@ -1,7 +1,7 @@
 CONSTANT Ms = {1}
 CONSTANT N = 1
 CONSTANT E = 1
-CONSTANT UseFile = FALSE
+CONSTANT UseFile = TRUE
 CONSTANT K = 1
 CONSTANT EpsNum = 0
 CONSTANT EpsDen = 1
